@@ -372,3 +372,95 @@ def set_num_bounds_from(f, nb):
     elif op == "not":
         set_num_bounds_from(f["arg"], nb)
     return f
+
+
+# ------------------------------------------------------------------ simplified syntax (C07/C08)
+INFIX = {"=", "<", "<=", ">", ">=", "+", "-", "*", "div", "mod", "str.++", "re.++", "str.<="}
+
+
+def sugar_term(t, top=True, ren=None):
+    """prefix/infix notation of islaspec 'Generalized SMT-LIB syntax' (one infix level, operands in prefix form)"""
+    ren = ren or {}
+    k = t["k"]
+    if k == "var":
+        return ren.get(t["v"], t["v"])
+    if k == "str":
+        return isla_str(t["s"])
+    if k == "int":
+        return str(t["i"])          # negative literals are written -1
+    if k == "bool":
+        return "true" if t["b"] else "false"
+    f, args = t["f"], t["args"]
+    if top and f in INFIX and len(args) == 2:
+        return "%s %s %s" % (sugar_term(args[0], False, ren), f, sugar_term(args[1], False, ren))
+    if f in ("re.loop", "re.^", "distinct", "ite", "=>", "and", "or", "not", "xor") or not args:
+        return term_text_ren(t, ren)      # not available in prefix notation: S-expression
+    return "%s(%s)" % (f, ", ".join(sugar_term(a, False, ren) for a in args))
+
+
+def sugar_text(f, ren=None, omit_in_start=True, infix=True):
+    """concrete syntax using: omitted `in start`, prefix/infix SMT notation, variables renamed to
+    nonterminals (ren: variable -> "<T>") for omitted names / free nonterminals"""
+    ren = ren or {}
+    op = f["op"]
+    if op in ("forall", "exists"):
+        m = '="%s"' % mexpr_text(f["mexpr"]) if f["mexpr"] else ""
+        name = "" if f["v"] in ren else " " + f["v"]
+        inn = "" if (omit_in_start and f["in"] == "start") else " in %s" % ren.get(f["in"], f["in"])
+        return "%s %s%s%s%s: (%s)" % (op, f["ty"], name, m, inn, sugar_text(f["body"], ren, omit_in_start, infix))
+    if op in ("forallint", "existsint"):
+        return "%s int %s: (%s)" % (op[:-3], f["v"], sugar_text(f["body"], ren, omit_in_start, infix))
+    if op in ("and", "or"):
+        args = f["args"]
+        if len(args) == 1:
+            return sugar_text(args[0], ren, omit_in_start, infix)
+        return "(" + sugar_text(args[0], ren, omit_in_start, infix) + " %s " % op + sugar_text({"op": op, "args": args[1:]}, ren, omit_in_start, infix) + ")"
+    if op == "not":
+        return "not (%s)" % sugar_text(f["arg"], ren, omit_in_start, infix)
+    if op in ("implies", "iff", "xor"):
+        return "((%s) %s (%s))" % (sugar_text(f["args"][0], ren, omit_in_start, infix), op, sugar_text(f["args"][1], ren, omit_in_start, infix))
+    if op == "true":
+        return "true"
+    if op == "false":
+        return "false"
+    if op in ("pred", "count"):
+        name = f["name"] if op == "pred" else "count"
+        args = []
+        for a in f["args"]:
+            if a["k"] == "var":
+                args.append(ren.get(a["v"], a["v"]))
+            elif a["k"] == "int":
+                args.append('"%d"' % a["i"])
+            else:
+                args.append('"%s"' % a["s"])
+        return "%s(%s)" % (name, ", ".join(args))
+    if op == "smt":
+        return sugar_term(f["term"], True, ren) if infix else term_text_ren(f["term"], ren)
+    raise ValueError(op)
+
+
+def term_text_ren(t, ren):
+    if t["k"] == "var":
+        return ren.get(t["v"], t["v"])
+    if t["k"] == "app" and t["args"]:
+        return "(%s %s)" % (t["f"], " ".join(term_text_ren(a, ren) for a in t["args"]))
+    return term_text(t)
+
+
+def desugar_connectives(f):
+    """core AST of a formula that may contain implies/iff/xor nodes (truth tables of islaspec)"""
+    op = f["op"]
+    if op in ("forall", "exists", "forallint", "existsint"):
+        return dict(f, body=desugar_connectives(f["body"]))
+    if op in ("and", "or"):
+        return dict(f, args=[desugar_connectives(a) for a in f["args"]])
+    if op == "not":
+        return dict(f, arg=desugar_connectives(f["arg"]))
+    if op in ("implies", "iff", "xor"):
+        a, b = [desugar_connectives(x) for x in f["args"]]
+        if op == "implies":
+            return OR(NOT(a), b)
+        if op == "iff":
+            return OR(AND(a, b), AND(NOT(a), NOT(b)))
+        return OR(AND(a, NOT(b)), AND(NOT(a), b))
+    return f
